@@ -389,12 +389,14 @@ theorem clear_renderRel (L : List Text) (hns : ∀ x ∈ L, cSlash ∉ x ∧ Pat
   rw [i'.data]
   simp [clearView, hab]
 
-/-- the path part of `relative_to` on two paths that both count as absolute (the base's may be
-empty behind an authority): the relative path, or nothing when the shortcut fires -/
-theorem relative_body_explicit_gen (we : Grammar.OkWE G) (a b : Text)
+/-- the path part of `relative_to` on two paths that count as absolute both or neither, neither
+normalised list beginning with `..`: the relative path, or nothing when the shortcut fires -/
+theorem relative_body_explicit_core (we : Grammar.OkWE G) (a b : Text)
     (ha : Matches G.reference a) (hb : Matches G.reference b)
-    (hpa : isAbs (split a).path = true)
-    (hpb : isAbs (split b).path = true ∨ ((split b).path = [] ∧ (split b).authority.isSome = true))
+    (habs : (Path.is_absolute (split a).path !=
+        (Path.is_absolute (split b).path || ((split b).authority.isSome && Path.is_empty (split b).path))) = false)
+    (hhA : ((nsegs (split a).path).head? == some [cDot, cDot]) = false)
+    (hhB : ((nsegs (Path.parent_or_empty (split b).path)).head? == some [cDot, cDot]) = false)
     (hLne0 : relSegs a b ≠ [])
     (hcls : (!(remainder a b).2.2 && (remainder a b).1.head? == some []) = false) :
     Ref.relative_body a b = some (recompose (pathQF (if sdCond a b then [] else renderRel (relSegs a b))
@@ -418,39 +420,11 @@ theorem relative_body_explicit_gen (we : Grammar.OkWE G) (a b : Text)
   obtain ⟨hpw, hpp⟩ := parent_or_empty_props (split b).path
   have hws : ∀ s ∈ nsegs (split a).path, wellEscaped s = true := nsegs_we _ hweA
   have hwb : ∀ s ∈ nsegs (Path.parent_or_empty (split b).path), wellEscaped s = true := nsegs_we _ (hpw hweO)
-  -- the directory of the base is absolute, so both lists are dot-free
-  have hBab : (split b).path = [] ∨ ∃ q, (split b).path = cSlash :: q := by
-    rcases hpb with hpb | hpb
-    · right
-      cases hpp' : (split b).path with
-      | nil => rw [hpp'] at hpb; simp [isAbs] at hpb
-      | cons c t =>
-        rw [hpp'] at hpb
-        have : c = cSlash := by simpa [isAbs] using hpb
-        exact ⟨t, by rw [this]⟩
-    · exact .inl hpb.1
-  have he0 : nsegs (Path.parent_or_empty (split b).path) = nsegsOf true (segs (split b).path).dropLast := by
-    rcases hBab with e | ⟨q, hqb'⟩
-    · rw [e]; decide
-    · rw [hqb']
-      obtain ⟨⟨k, hk⟩, habs, _⟩ := parent_segs q
-      unfold nsegs
-      rw [habs, hk, nsegsOf_dots]
-  have hdfA : DotFree (nsegs (split a).path) := by
-    unfold nsegs; rw [hpa]; exact nsegsOf_abs_dotFree _
-  have hdfB : DotFree (nsegs (Path.parent_or_empty (split b).path)) := by rw [he0]; exact nsegsOf_abs_dotFree _
   have hbody : Ref.relative_body a b = some (recompose (pathQF (if sdCond a b then [] else renderRel (relSegs a b))
       (split a).query (split a).fragment)) := by
     unfold Ref.relative_body
     simp only [hpA, hpO, hqa, hqb, hfa, hbu, normalized_segments_eq _ hptA, normalized_segments_eq _ (hpp hptO)]
-    -- both paths count as absolute
-    have habs : (Path.is_absolute (split a).path !=
-        (Path.is_absolute (split b).path || ((split b).authority.isSome && Path.is_empty (split b).path))) = false := by
-      rw [is_absolute_eq, is_absolute_eq, hpa]
-      rcases hpb with h | ⟨h, h2⟩
-      · rw [h]; rfl
-      · rw [h, h2]; rfl
-    simp only [habs, Bool.false_eq_true, if_false, head_not_dotdot hdfA, head_not_dotdot hdfB, Bool.or_self]
+    simp only [habs, Bool.false_eq_true, if_false, hhA, hhB, Bool.or_self]
     rw [dropCommonPanics_false _ _ hws hwb]
     simp only [Bool.false_eq_true, if_false]
     have hcls' := hcls
@@ -527,6 +501,44 @@ theorem relative_body_explicit_gen (we : Grammar.OkWE G) (a b : Text)
       simp only [if_true, e, Option.map_some, hb', Option.bind_some]
       exact htail [] (fun c hc => by cases hc) rfl rfl
   exact hbody
+
+/-- the path part of `relative_to` on two paths that both count as absolute (the base's may be
+empty behind an authority): the relative path, or nothing when the shortcut fires -/
+theorem relative_body_explicit_gen (we : Grammar.OkWE G) (a b : Text)
+    (ha : Matches G.reference a) (hb : Matches G.reference b)
+    (hpa : isAbs (split a).path = true)
+    (hpb : isAbs (split b).path = true ∨ ((split b).path = [] ∧ (split b).authority.isSome = true))
+    (hLne0 : relSegs a b ≠ [])
+    (hcls : (!(remainder a b).2.2 && (remainder a b).1.head? == some []) = false) :
+    Ref.relative_body a b = some (recompose (pathQF (if sdCond a b then [] else renderRel (relSegs a b))
+      (split a).query (split a).fragment)) := by
+  have hBab : (split b).path = [] ∨ ∃ q, (split b).path = cSlash :: q := by
+    rcases hpb with hpb | hpb
+    · right
+      cases hpp' : (split b).path with
+      | nil => rw [hpp'] at hpb; simp [isAbs] at hpb
+      | cons c t =>
+        rw [hpp'] at hpb
+        have : c = cSlash := by simpa [isAbs] using hpb
+        exact ⟨t, by rw [this]⟩
+    · exact .inl hpb.1
+  have he0 : nsegs (Path.parent_or_empty (split b).path) = nsegsOf true (segs (split b).path).dropLast := by
+    rcases hBab with e | ⟨q, hqb'⟩
+    · rw [e]; decide
+    · rw [hqb']
+      obtain ⟨⟨k, hk⟩, habs, _⟩ := parent_segs q
+      unfold nsegs
+      rw [habs, hk, nsegsOf_dots]
+  have hdfA : DotFree (nsegs (split a).path) := by
+    unfold nsegs; rw [hpa]; exact nsegsOf_abs_dotFree _
+  have hdfB : DotFree (nsegs (Path.parent_or_empty (split b).path)) := by rw [he0]; exact nsegsOf_abs_dotFree _
+  have habs : (Path.is_absolute (split a).path !=
+      (Path.is_absolute (split b).path || ((split b).authority.isSome && Path.is_empty (split b).path))) = false := by
+    rw [is_absolute_eq, is_absolute_eq, hpa]
+    rcases hpb with h | ⟨h, h2⟩
+    · rw [h]; rfl
+    · rw [h, h2]; rfl
+  exact relative_body_explicit_core G ok okp we a b ha hb habs (head_not_dotdot hdfA) (head_not_dotdot hdfB) hLne0 hcls
 
 theorem relative_body_explicit (we : Grammar.OkWE G) (a b : Text)
     (ha : Matches G.reference a) (hb : Matches G.reference b)
